@@ -76,6 +76,29 @@ Proof.
   apply G; [apply empty_state_ok|exact L].
 Qed.
 
+(* ---- the ordering links are ranked: no cycle, and a link never leaves its subscription
+   (L_Good.LBr; used by T_Live) ---- *)
+Theorem step_links_ranked st now o :
+  ids_unique st -> refs_ok st -> legal st now o -> LBr (dels st) -> LBr (dels (post st now o)).
+Proof.
+  intros U R L H. apply (step_good st now o L); [exact U| |exact H]. apply (refs_ok'_iff st). exact R.
+Qed.
+
+Theorem reachable_links_ranked st : reachable st -> LBr (dels st).
+Proof.
+  intros [h [L ->]].
+  assert (G : forall h st0, ids_unique st0 /\ refs_ok st0 /\ LBr (dels st0) -> all_legal st0 h ->
+                            LBr (dels (run st0 h))).
+  { clear. induction h as [|[now o] h IH]; intros st0 (U & R & B) L; cbn [run]; [exact B|].
+    assert (L0 : legal st0 now o) by (apply L; cbn [trace]; left; reflexivity).
+    apply IH.
+    - split; [apply step_ids_unique; assumption|]. split; [apply step_refs_ok; assumption|].
+      apply step_links_ranked; assumption.
+    - intros s now' o' Hi. apply L. cbn [trace]. right; exact Hi. }
+  apply G; [|exact L]. destruct empty_state_ok as [U R]. split; [exact U|]. split; [exact R|].
+  exists (fun _ => 0%nat). intros d pd Hd. destruct Hd.
+Qed.
+
 (* ---- tables are kept sorted by id (so that equality of dumps is equality of lists) ---- *)
 Fixpoint sorted_ids (l : list id) : Prop :=
   match l with
